@@ -152,6 +152,10 @@ func yamlTranslateNode(node *yaml.Node) (any, error) {
 		}
 
 	case yaml.AliasNode:
+		if yamlContains(node.Alias, node) {
+			return nil, fmt.Errorf("yaml anchor %q contains itself (%w)", node.Value, ErrCircularRef)
+		}
+
 		return yamlTranslateNode(node.Alias)
 
 	case 0:
@@ -160,6 +164,23 @@ func yamlTranslateNode(node *yaml.Node) (any, error) {
 	default:
 		return nil, fmt.Errorf("unknown yaml type: %d (%w)", node.Kind, ErrInvalidType)
 	}
+}
+
+// yamlContains reports whether target is part of the subtree rooted at node
+// (aliases are not followed: an alias can only refer to an earlier anchor, so a
+// cycle always shows up as an alias inside its own anchor).
+func yamlContains(node, target *yaml.Node) bool {
+	if node == target {
+		return true
+	}
+
+	for _, child := range node.Content {
+		if yamlContains(child, target) {
+			return true
+		}
+	}
+
+	return false
 }
 
 // Merge mapping or list of mappings into a destination mapping, as per https://yaml.org/type/merge.html
